@@ -102,7 +102,14 @@ def class_programs(seed, n):
                                   Let("l", List(I(a), I(b), I(c))), Print(Bin("+", Idx(V("l"), I(0)), Idx(V("l"), I(2))), Bin(cmpop, Idx(V("l"), I(1)), I(5))),
                                   Let("o", Obj(p=I(a), q=F(b, 0))), Print(Bin("+", Mem(V("o"), "p"), I(1)), Bin("*", Mem(V("o"), "q"), F(1, 1)), V("g1"), V("g2"))])),
         }
-        progs.append(Program("cls%d" % i, fns, globs=[("g1", Bin("+", I(a), I(b))), ("g2", Bin("*", I(c), I(2)))], feats={"family": "class"}))
+        # global initializers must stay constant expressions, whatever is rewritten inside them: every operator class in one
+        globs = [("g1", Bin("+", I(a), I(b))), ("g2", Bin("*", I(c), I(2))),
+                 ("g3", Bin("==", Bin("*", I(3), I(4)), I(12))), ("g4", Bin("!=", Bin("*", I(a % 6), I(2)), Bin("+", I(b), I(1)))),
+                 ("g5", Bin("&&", Bin("<", Bin("*", I(2), I(3)), I(7)), Bin(cmpop, Bin("+", I(a), I(1)), Bin("*", I(2), I(b % 6))))),
+                 ("g6", List(Bin("*", I(a % 6), I(2)), Bin("-", I(b), I(1)))), ("g7", Un("-", Bin("*", I(c % 6), I(3)))),
+                 ("g8", Bin("||", Bin(">=", Bin("*", I(5), I(1)), I(5)), Bin("==", I(a), I(b))))]
+        fns["main"]["body"]["ss"].append(Print(V("g3"), V("g4"), V("g5"), V("g6"), V("g7"), V("g8")))
+        progs.append(Program("cls%d" % i, fns, globs=globs, feats={"family": "class"}))
     # pure arithmetic trees over small values with every operator: what the rewrites print must mean the same
     def tree(d, ty):
         if d == 0 or rnd.random() < 0.25:
